@@ -47,7 +47,7 @@ static void base_build(uint64_t b, struct kx_set* s)
 
 /* ---------------- presentations ---------------- */
 enum { P_WRAP = 0, P_BLANK = 7, P_PAD = 9, P_GAP1 = 12, P_GAP2 = 12 + 108, P_MOSTLY = 12 + 108 + 27, P_CLU = P_MOSTLY + 3, P_MSF = P_CLU + 6,
-       P_SPLIT = P_MSF + 6, P_STDIN = P_SPLIT + 12, P_LATE = P_STDIN + 4, P_NONL = P_LATE + 6, P_END = P_NONL + 3 };
+       P_SPLIT = P_MSF + 6, P_STDIN = P_SPLIT + 12, P_LATE = P_STDIN + 4, P_NONL = P_LATE + 6, P_CRLF = P_NONL + 3, P_END = P_CRLF + 3 };
 static const int WRAPS[7] = {1, 2, 3, 59, 60, 61, 0};
 static const char GAPSYM[3] = {'-', '.', '~'};
 static const int RUNLEN[3] = {1, 2, 100};
@@ -193,8 +193,10 @@ static const char* present_name(int p)
         }else if(p < P_NONL){
                 int q = p - P_LATE;
                 snprintf(b, sizeof b, "gap characters ('%c') only in the last %d record(s), ragged FASTA", GAPSYM[q % 3], q / 3 ? 8 : 1);
-        }else{
+        }else if(p < P_CRLF){
                 snprintf(b, sizeof b, "%s file whose last line has no terminating newline", (const char*[]){"FASTA", "Clustal", "MSF"}[p - P_NONL]);
+        }else{
+                snprintf(b, sizeof b, "%s file with CR LF line ends", (const char*[]){"FASTA", "Clustal", "MSF"}[p - P_CRLF]);
         }
         return b;
 }
@@ -360,6 +362,24 @@ static int present(const struct kx_set* s, int p, struct files* f)
                         }
                 }
                 write_fasta_rows(s, 0, n, 60, f->path[0]);
+        }else if(p >= P_CRLF){
+                int q = p - P_CRLF;
+                static char crlf[1 << 18];
+                size_t l, o2 = 0, z;
+                if(q == 0){
+                        write_fasta_rows(s, 0, n, 60, f->path[0]);
+                }else{
+                        equalise(ROWS, n, q == 2 ? '.' : '-');
+                        write_blocks(s, 0, n, q == 2, 3, f->path[0]);
+                }
+                l = strlen(TXT);
+                for(z = 0; z < l && o2 + 2 < sizeof crlf; z++){
+                        if(TXT[z] == '\n'){
+                                crlf[o2++] = '\r';
+                        }
+                        crlf[o2++] = TXT[z];
+                }
+                vh_write_file(f->path[0], crlf, o2);
         }else if(p >= P_NONL){
                 int q = p - P_NONL;
                 size_t l;
@@ -503,7 +523,7 @@ int vh_case(uint64_t id, int tier)
                 vh_fail(sig, "accepted as bare FASTA, rejected when presented as: %s", present_name(p));
         }else if(gl != wl || memcmp(got, want, wl) != 0){
                 char sig[80];
-                const char* cls = p < P_BLANK ? "wrap" : (p < P_PAD ? "blank-lines" : (p < P_GAP1 ? "padding" : (p < P_CLU ? "gaps" : (p < P_MSF ? "clustal" : (p < P_SPLIT ? "msf" : (p < P_STDIN ? "split-files" : (p < P_LATE ? "stdin" : (p < P_NONL ? "late-gaps" : "no-final-newline"))))))));
+                const char* cls = p < P_BLANK ? "wrap" : (p < P_PAD ? "blank-lines" : (p < P_GAP1 ? "padding" : (p < P_CLU ? "gaps" : (p < P_MSF ? "clustal" : (p < P_SPLIT ? "msf" : (p < P_STDIN ? "split-files" : (p < P_LATE ? "stdin" : (p < P_NONL ? "late-gaps" : (p < P_CRLF ? "no-final-newline" : "crlf")))))))));
                 snprintf(sig, sizeof sig, "sem:presentation-changes-result.%s", cls);
                 vh_fail(sig, "%s: output differs from the bare-FASTA run: got %.120s ... want %.120s", present_name(p), got, want);
         }else{
